@@ -26,12 +26,18 @@ ecs_world! {
     ecs_archetype!(S7, P2, Ch, P1, Cw);
 }
 
+/// 1 when a realloc / dealloc since the last call used a layout that was not the block's own
+/// (harness/alloc_check); the scenario's worlds have been dropped by then
+fn alloc_bad() -> u8 {
+    alloc_check::take().is_some() as u8
+}
+
 fn balance(tag: &str, made: u64) {
     let (live, zlive, drops, zdrops, clones, errs) = REG.with(|r| {
         let r = r.borrow();
         (r.live.len(), r.zlive, r.drops.len(), r.zdrops, r.clones.len(), r.errors.len())
     });
-    println!("{} made={} cloned={} dropped={} live={} zlive={} zbalance={} errors={}", tag, made, clones, drops, live, zlive, (zdrops > 0) as u8, errs);
+    println!("{} made={} cloned={} dropped={} live={} zlive={} zbalance={} errors={} alloc={}", tag, made, clones, drops, live, zlive, (zdrops > 0) as u8, errs, alloc_bad());
 }
 
 macro_rules! scenario {
@@ -117,7 +123,7 @@ fn leaked_guard() {
     match r {
         Ok((made, whole, removed, cloned, len)) => {
             let errs = REG.with(|r| r.borrow().errors.len());
-            println!("L1 create_ok={} all_or_nothing={} destroy_ok={} clone_refused={} len={} errors={}", made as u8, whole as u8, (removed == Some(true)) as u8, (!cloned) as u8, len, errs)
+            println!("L1 create_ok={} all_or_nothing={} destroy_ok={} clone_refused={} len={} errors={} alloc={}", made as u8, whole as u8, (removed == Some(true)) as u8, (!cloned) as u8, len, errs, alloc_bad())
         }
         Err(c) => println!("L1 panic {}", c),
     }
@@ -148,15 +154,183 @@ fn leaked_guard_iter_destroy() {
     match r {
         Ok((ok, visited, l4, l1, consistent)) => {
             let errs = REG.with(|r| r.borrow().errors.len());
-            println!("L2 loop_ok={} visited={} left={}/{} consistent={} errors={}", ok as u8, visited, l4, l1, consistent as u8, errs)
+            println!("L2 loop_ok={} visited={} left={}/{} consistent={} errors={} alloc={}", ok as u8, visited, l4, l1, consistent as u8, errs, alloc_bad())
         }
         Err(c) => println!("L2 panic {}", c),
     }
 }
 
+/// C10 with a leaked guard at every growth step: each archetype column's guard is leaked in turn
+/// (shared and exclusive), then the archetype is grown through several reallocations; whatever
+/// panics, every entity is whole or absent, the world stays usable and is dropped with the
+/// layouts its arrays really have (alloc=0).
+fn leaked_guard_growth() {
+    reg_reset();
+    let mut lines_ok = true;
+    let mut grown = 0usize;
+    let mut panics = 0usize;
+    for variant in 0..4 {
+        let r = guard(|| {
+            let mut w = Ws::with_capacity(WsCapacity { s_1: 0, s_2: 0, s_3: 0, s_4: 4, s_5: 0, s_6: 0, s_7: 0 });
+            for i in 0..4u64 {
+                w.s_4.create((Ca::make(100 + i, 1), Da::make(200 + i, 2)));
+            }
+            match variant {
+                0 => std::mem::forget(w.s_4.borrow_slice::<Ca>()),
+                1 => std::mem::forget(w.s_4.borrow_slice::<Da>()),
+                2 => std::mem::forget(w.s_4.borrow_slice_mut::<Ca>()),
+                _ => std::mem::forget(w.s_4.borrow_slice_mut::<Da>()),
+            }
+            let mut ok = true;
+            let mut pan = 0usize;
+            for i in 0..40u64 {
+                let before = w.s_4.len();
+                let made = guard(|| w.s_4.create((Ca::make(300 + i, 1), Da::make(400 + i, 2)))).is_ok();
+                if !made { pan += 1; }
+                let after = w.s_4.len();
+                let rows = w.s_4.iter().count();
+                let ents = w.s_4.entities().len();
+                if !((made && after == before + 1) || (!made && after == before)) || rows != after || ents != after || w.s_4.capacity() < after {
+                    ok = false;
+                }
+            }
+            (ok, pan, w.s_4.capacity())
+        });
+        match r {
+            Ok((ok, pan, cap)) => { lines_ok &= ok; panics += pan; grown += (cap > 4) as usize; }
+            Err(_) => { lines_ok = false; }
+        }
+    }
+    let errs = REG.with(|r| r.borrow().errors.len());
+    println!("L3 all_or_nothing={} create_panics={} grown={} errors={} alloc={}", lines_ok as u8, panics, grown, errs, alloc_bad());
+}
+
+/// C03 in a world with ONE archetype (nothing to dispatch on): keys whose archetype byte is not
+/// the archetype's — forged with `from_raw` over all 255 other values, or issued by a world of
+/// another type — must be rejected (None / false) or panic cleanly on every dynamic path,
+/// query macros included, and must leave the data untouched.
+pub mod one {
+    use super::P1;
+    use crate::guard;
+    use gecs::prelude::*;
+    ecs_world! {
+        ecs_name!(Wf1);
+        ecs_archetype!(Only, P1);
+    }
+    pub mod b {
+        use super::P1;
+        use gecs::prelude::*;
+        ecs_world! {
+            ecs_name!(Wf2);
+            #[archetype_id(9)]
+            ecs_archetype!(Other, P1);
+        }
+    }
+    pub fn run() {
+        use b::{Other, Wf2};
+        let mut w = Wf1::new();
+        let e0 = w.create::<Only>((P1(41),));
+        let e1 = w.create::<Only>((P1(42),));
+        let mut v = Wf2::new();
+        let x0 = v.create::<Other>((P1(7),));
+        let x1 = v.create::<Other>((P1(8),));
+        let mut accepted: Vec<String> = Vec::new();
+        let mut rejected = 0usize;
+        let mut panicked = 0usize;
+        let mut tally = |name: &str, id: u32, r: Result<bool, &'static str>| match r {
+            Ok(true) => accepted.push(format!("{}#{}", name, id)),
+            Ok(false) => rejected += 1,
+            Err(_) => panicked += 1,
+        };
+        let own = e0.into_any().raw();
+        let mut keys: Vec<(u32, EntityAny)> = Vec::new();
+        for id in 1..=255u32 {
+            if let Ok(f) = EntityAny::from_raw(((own.0 & !0xff) | id, own.1)) {
+                keys.push((id, f));
+            }
+        }
+        keys.push((1000, x0.into_any()));
+        keys.push((1001, x1.into_any()));
+        for (id, f) in keys {
+            tally("find", id, guard(|| ecs_find!(w, f, |p: &P1| p.0).is_some()));
+            tally("find_mut", id, guard(|| ecs_find!(w, f, |p: &mut P1| { p.0 += 1000; }).is_some()));
+            tally("find_borrow", id, guard(|| ecs_find_borrow!(w, f, |p: &P1| p.0).is_some()));
+            tally("find_borrow_mut", id, guard(|| ecs_find_borrow!(w, f, |p: &mut P1| { p.0 += 1000; }).is_some()));
+            tally("contains", id, guard(|| w.contains(f)));
+            tally("to_direct", id, guard(|| w.to_direct(f).is_some()));
+            tally("arch.contains", id, guard(|| w.only.contains(f)));
+            tally("arch.to_direct", id, guard(|| w.only.to_direct(f).is_some()));
+            tally("arch.resolve", id, guard(|| w.only.resolve(f).is_some()));
+            tally("arch.view", id, guard(|| w.only.view(f).is_some()));
+            tally("arch.borrow", id, guard(|| w.only.borrow(f).is_some()));
+        }
+        // direct keys of the other world type
+        for (i, x) in [x0, x1].into_iter().enumerate() {
+            if let Some(d) = v.to_direct(x) {
+                let d: EntityDirectAny = d.into();
+                let id = 2000 + i as u32;
+                tally("find(direct)", id, guard(|| ecs_find!(w, d, |p: &P1| p.0).is_some()));
+                tally("find_mut(direct)", id, guard(|| ecs_find!(w, d, |p: &mut P1| { p.0 += 1000; }).is_some()));
+                tally("find_borrow(direct)", id, guard(|| ecs_find_borrow!(w, d, |p: &P1| p.0).is_some()));
+                tally("contains(direct)", id, guard(|| w.contains(d)));
+                tally("arch.contains(direct)", id, guard(|| w.only.contains(d)));
+                tally("arch.view(direct)", id, guard(|| w.only.view(d).is_some()));
+            }
+        }
+        // destroys last
+        let own1 = e1.into_any().raw();
+        for id in [1u32, 9, 255] {
+            if let Ok(f) = EntityAny::from_raw(((own1.0 & !0xff) | id, own1.1)) {
+                tally("destroy", id, guard(|| w.destroy(f).is_some()));
+                tally("arch.destroy", id, guard(|| w.only.destroy(f).is_some()));
+            }
+        }
+        tally("destroy", 1001, guard(|| w.destroy(x1.into_any()).is_some()));
+        let intact = w.only.len() == 2
+            && ecs_find!(w, e0, |p: &P1| p.0) == Some(41)
+            && ecs_find!(w, e1, |p: &P1| p.0) == Some(42);
+        let n_acc = accepted.len();
+        accepted.truncate(6);
+        println!("F1 accepted={} first=[{}] refused={} data_intact={}", n_acc, accepted.join(","), (rejected + panicked > 0) as u8, intact as u8);
+    }
+}
+
+/// C07: the step values an `ecs_iter_destroy!` closure may return and their conversions.
+fn step_values() {
+    fn name(x: &EcsStepDestroy) -> &'static str {
+        match x {
+            EcsStepDestroy::Continue => "Continue",
+            EcsStepDestroy::Break => "Break",
+            EcsStepDestroy::ContinueDestroy => "ContinueDestroy",
+            EcsStepDestroy::BreakDestroy => "BreakDestroy",
+        }
+    }
+    fn name2(x: &EcsStep) -> &'static str {
+        match x {
+            EcsStep::Continue => "Continue",
+            EcsStep::Break => "Break",
+        }
+    }
+    let v = [EcsStepDestroy::Continue, EcsStepDestroy::Break, EcsStepDestroy::ContinueDestroy, EcsStepDestroy::BreakDestroy];
+    let bits: String = v.iter().map(|x| if x.is_destroy() { '1' } else { '0' }).collect();
+    println!(
+        "D1 is_destroy={} default={} from_unit={} from_continue={} from_break={} step_default={} step_from_unit={}",
+        bits,
+        name(&EcsStepDestroy::default()),
+        name(&EcsStepDestroy::from(())),
+        name(&EcsStepDestroy::from(EcsStep::Continue)),
+        name(&EcsStepDestroy::from(EcsStep::Break)),
+        name2(&EcsStep::default()),
+        name2(&EcsStep::from(()))
+    );
+}
+
 pub fn run() {
     leaked_guard();
     leaked_guard_iter_destroy();
+    leaked_guard_growth();
+    one::run();
+    step_values();
     scenario!("S1", S1, s_1, |t: u64| (Ca::make(t, 1), P1(t)), 1);
     scenario!("S2", S2, s_2, |t: u64| (P1(t), Ca::make(t, 1)), 1);
     scenario!("S3", S3, s_3, |t: u64| (P1(t), Ca::make(t, 1), Cz::make(0, 0)), 1);
